@@ -49,6 +49,10 @@ def run(tier):
             rep.regime("front_end_fortran_order")
         if c.get("lam_form", "float").startswith("matrix"):
             rep.regime("matrix_lambda")
+    # (3b) the optimiser entry point: covariance / matrix lambda, writable and read-only (30 %), incl. covariances
+    #      that are symmetric only up to round-off (a tempting target for an in-place symmetrisation)
+    from .. import drv_admm
+    drv_admm.solver_sweep(rep, tier, {"C19"}, extra_kinds=("roundoff_asymmetric",))
     # (4) failing calls: the fault corpus of C20
     fc = corpus.cached(f"faults_{tier}_{common.seed()}", lambda: faultruns.build_fault_corpus(tier))
     ft = [e["F"] for e in fc["experiments"] if "F" in e and e["F"]["events"][-1]["ev"] == "raise"]
